@@ -47,6 +47,14 @@ def cases_(draw):
     focused = gen.rare(draw, 300)
     pkg = draw(gp.input_package(2 if focused else 1, 3, sizes=sizes if not focused else (1, 2, 3, 5),
                                 types=gp.IN_TYPES + ['array', 'object']))
+    gp.ALLOW_STOP_ITERATION[0] = True
+    try:
+        return _cases_body(draw, big, sizes, focused, pkg)
+    finally:
+        gp.ALLOW_STOP_ITERATION[0] = False
+
+
+def _cases_body(draw, big, sizes, focused, pkg):
     if focused:
         # focused class: small catalogues of steps that keep / index / copy rows (join with the source kept, duplicate,
         # sort, concatenate, a dump) interleaved with in-place editors, so that every such pair occurs often
@@ -66,7 +74,9 @@ def cases_(draw):
     ci = draw(st.integers(0, n - 1))
     cj = draw(st.integers(ci + 1, n))
     c = {'pkg': prog['pkg'], 'steps': prog['steps'], 'cuts': cuts, 'nest': [i, j, i2, j2], 'cond': [ci, cj],
-         'cond_form': draw(st.sampled_from(['flow', 'factory'])), 'seq': draw(st.booleans())}
+         'cond_form': draw(st.sampled_from(['flow', 'factory'])), 'seq': draw(st.booleans()),
+         # what the always-true predicate returns: True, or another truthy value
+         'cond_pred': draw(st.sampled_from(['true', 'true', 'one', 'list', 'str', 'count', 'match']))}
     # (Hypothesis' integers / sampled_from / randoms all favour their first / smallest values,
     # so the (rare) class is selected by a hash of the rest of the case instead of a draw
     import hashlib
@@ -154,6 +164,36 @@ def check(case, ctx):
             return Info(nontrivial=True, classes=classes + ['bad-link:' + case['bad_link']['kind']])
         raise Violation('uninterpretable-link-silently-skipped:%s' % case['bad_link']['kind'],
                         {'position': case['bad_link']['at'], 'program': [s['k'] for s in specs]})
+    # ---- a user row function that raises StopIteration at some row: evaluated step by step this is an error at that
+    # row, so the chained run has to fail as well - it must not read it as the end of the resource
+    stops = [s_ for s_ in specs if s_['k'] == 'row_fn' and s_.get('fn') == 'stop_at']
+    if stops:
+        try:
+            evaluate(specs, desc0, tables0, ctx, seq=case['seq'])
+        except Exception:
+            return Info(nontrivial=True, classes=classes + ['row-function-raises-StopIteration'])
+        # (it ran to its end: legitimate only if no row with that id ever reached the function)
+        d_, t_ = jcopy(desc0), copy.deepcopy(tables0)
+        reached = False
+        try:
+            for s_ in specs:
+                if s_ in stops:
+                    if any(r.get('id') == s_['at'] for t in t_ for r in t):
+                        reached = True
+                        break
+                    continue
+                if s_['k'] in gp.USER_KINDS:
+                    d_, t_ = gp.reference_apply(s_, d_, t_)
+                    d_ = passthrough_desc(d_)
+                else:
+                    d_, t_, _ = evaluate([s_], d_, t_, ctx)
+                d_ = jcopy(d_)
+        except Exception:
+            return Info(rejected=True, classes=['rejected:stepwise-fails-before-the-raising-function'])
+        if reached:
+            raise Violation('StopIteration-from-a-row-function-ends-the-resource-silently',
+                            {'program': [s_['k'] for s_ in specs], 'at_id': stops[0]['at']})
+        return Info(classes=classes + ['row-function-raises-StopIteration:never-reached'])
     # ---- lazy run of the whole program
     try:
         L_before, L_rows, L_after = evaluate(specs, desc0, tables0, ctx, seq=case['seq'])
@@ -207,7 +247,10 @@ def check(case, ctx):
     def cond(steps):
         sub = Flow(*steps[ci:cj])
         arg = sub if case['cond_form'] == 'flow' else (lambda dp: sub)
-        return steps[:ci] + [dataflows.conditional(lambda dp: True, arg)] + steps[cj:]
+        import re as _re
+        pred = {'true': lambda dp: True, 'one': lambda dp: 1, 'list': lambda dp: [0], 'str': lambda dp: 'yes',
+                'count': lambda dp: len(dp.resources) + 1, 'match': lambda dp: _re.match('a', 'a')}[case.get('cond_pred', 'true')]
+        return steps[:ci] + [dataflows.conditional(pred, arg)] + steps[cj:]
     try:
         cb, cr, _ = evaluate(specs, desc0, tables0, ctx, wrap=cond)
     except Exception as e:
